@@ -55,6 +55,7 @@ func genCase(t *rapid.T) Case {
 		}
 		c.Queries = append(c.Queries, qs)
 	}
+	c.H.Rename = gen.MaybeRename(t, c.H.Schema)
 	return c
 }
 
@@ -114,12 +115,16 @@ func execCase(c Case) (res vt.Result) {
 	defer cleanup()
 	path := filepath.Join(dir, "sharddb.bbolt")
 	mgr := drive.Manager(h.CacheLimit)
-	s, err := drive.Open(path, h.Schema, h.MaxPointSize, mgr)
+	s, err := drive.OpenNamed(path, h.Schema, h.MaxPointSize, mgr, h.Rename)
 	if err != nil {
 		return vt.Result{Err: fmt.Errorf("open: %v", err)}
 	}
 	defer func() { s.Close() }()
 	m := model.NewCollection(h.Schema, h.MaxPointSize)
+	m.SizeNames = h.Rename
+	if len(h.Rename) > 0 {
+		vt.R().Count("cases_with_renamed_properties", 1)
+	}
 	flat := h.Schema[gen.PFlat].VectorFlat
 	base := runtime.NumGoroutine()
 	nontrivial := false
@@ -166,7 +171,7 @@ func execCase(c Case) (res vt.Result) {
 			if err := s.Close(); err != nil {
 				return fail(i, "close: %v", err)
 			}
-			if s, err = drive.Open(path, h.Schema, h.MaxPointSize, mgr); err != nil {
+			if s, err = drive.OpenNamed(path, h.Schema, h.MaxPointSize, mgr, h.Rename); err != nil {
 				return fail(i, "reopen: %v", err)
 			}
 		case "evict":
@@ -253,7 +258,7 @@ func execCase(c Case) (res vt.Result) {
 				mgr  *cache.Manager
 			}{{"a cold copy with a fresh cache", cache.NewManager(-1)}, {"a copy with the cache disabled", nil}, {"a copy with a 1-byte cache limit", cache.NewManager(1)}}
 			for _, v := range variants {
-				inst, err := drive.Open(cp, h.Schema, h.MaxPointSize, v.mgr)
+				inst, err := drive.OpenNamed(cp, h.Schema, h.MaxPointSize, v.mgr, h.Rename)
 				if err != nil {
 					return fail(i, "open %s: %v", v.name, err)
 				}
